@@ -1,11 +1,329 @@
-(* C20 — the num module computes exactly and propagates absence. ONLY property theorems. *)
-From Coq Require Import QArith.
-From Quiver Require Import Base Num NumProofs.
+(* C20 — the num module computes exactly and propagates absence.
+   ONLY the property theorems: each `Theorem` states the full property on the model Num.v
+   (std/num.qv clause by clause), is closed by `exact <lemma>` and followed by Print Assumptions.
+   Vocabulary (NumProofs.v / NumSurd.v):
+     canon (Rat n d)   := 0 < d /\ gcd n d = 1             qval (Rat n d) := n # d  (in Coq's Q)
+     wfc c / cq c      := canonical coefficient (int or Rational) / its value in Q
+     wf_num            := canonical coefficient, or Surd[a,b,n] with canonical a b, b <> 0, n > 1 non-square
+     denotes x n (a,b) := x is the element a + b sqrt n of Q(sqrt n);  padd/psub/pmul/pdiv: the ring ops
+                          on pairs, (a,b)(c,d) = (ac + bdn, ad + bc)
+     built r           := the canonical form `build` produces (lowered coefficients)
+     outcome           := Val v | Err e | Panic site   (Base.v); "never a runtime error" = always Val.
+   Non-vacuity examples with operands beyond 2^64: NumExamples.v (part of this cone).
+   F14: `min/max/clamp` on incompatible radicals are REFUTED for the code as written
+   (C20_minmax_mixed_radicals_refuted); the intended behaviour is proved for the `_fixed` variants. *)
+From Coq Require Import QArith Qabs Reals Qreals.
+From Quiver Require Import Base Num NumProofs NumSurd NumReal NumExamples.
 Open Scope Z_scope.
 
+(* ---- canonical form *)
+Theorem C20_reduce_canonical_and_exact : forall n d, d <> 0 ->
+  exists n' d', reduce (Rat n d) = Val (Rat n' d') /\ canon (Rat n' d') /\ n' * d = n * d'.
+Proof. exact reduce_spec. Qed.
+Print Assumptions C20_reduce_canonical_and_exact.
+
+Theorem C20_reduce_value_in_Q : forall n d r, d <> 0 -> reduce (Rat n d) = Val r ->
+  canon r /\ qval r == inject_Z n / inject_Z d.
+Proof. exact reduce_value. Qed.
+Print Assumptions C20_reduce_value_in_Q.
+
+Theorem C20_canonical_form_unique : forall x y, canon x -> canon y -> qval x == qval y -> x = y.
+Proof. exact canon_qval_unique. Qed.
+Print Assumptions C20_canonical_form_unique.
+
+Theorem C20_literal_desugaring : forall n d, 0 < d ->
+  reduce (Rat n d) = Val (lit_reduce n d) /\ canon (lit_reduce n d) /\
+  qval (lit_reduce n d) == inject_Z n / inject_Z d.
+Proof. exact lit_reduce_spec. Qed.
+Print Assumptions C20_literal_desugaring.
+
+(* ---- exact arithmetic on integers and rationals; kind rules *)
+Theorem C20_add_exact : forall x y, wfc x -> wfc y ->
+  exists r, add (Some (NC x)) (Some (NC y)) = Val (Some (NC r)) /\ wfc r /\
+            cq r == cq x + cq y /\ (is_int r <-> is_int x /\ is_int y).
+Proof. exact add_coeff. Qed.
+Print Assumptions C20_add_exact.
+
+Theorem C20_sub_exact : forall x y, wfc x -> wfc y ->
+  exists r, sub (Some (NC x)) (Some (NC y)) = Val (Some (NC r)) /\ wfc r /\
+            cq r == cq x - cq y /\ (is_int r <-> is_int x /\ is_int y).
+Proof. exact sub_coeff. Qed.
+Print Assumptions C20_sub_exact.
+
+Theorem C20_mul_exact : forall x y, wfc x -> wfc y ->
+  exists r, mul (Some (NC x)) (Some (NC y)) = Val (Some (NC r)) /\ wfc r /\
+            cq r == cq x * cq y /\ (is_int r <-> is_int x /\ is_int y).
+Proof. exact mul_coeff. Qed.
+Print Assumptions C20_mul_exact.
+
+Theorem C20_div_exact_or_nil : forall x y, wfc x -> wfc y ->
+  (cq y == 0 -> div (Some (NC x)) (Some (NC y)) = Val None) /\
+  (~ cq y == 0 -> exists n d, div (Some (NC x)) (Some (NC y)) = Val (Some (NRat n d)) /\
+                             canon (Rat n d) /\ qval (Rat n d) == cq x / cq y).
+Proof. exact div_coeff. Qed.
+Print Assumptions C20_div_exact_or_nil.
+
+Theorem C20_neg_exact : forall x, wfc x ->
+  exists r, neg (Some (NC x)) = Val (Some (NC r)) /\ wfc r /\ cq r == - cq x /\ (is_int r <-> is_int x).
+Proof. exact neg_coeff. Qed.
+Print Assumptions C20_neg_exact.
+
+Theorem C20_abs_exact : forall x, wfc x ->
+  exists r, abs (Some (NC x)) = Val (Some (NC r)) /\ wfc r /\ cq r == Qabs (cq x) /\ (is_int r <-> is_int x).
+Proof. exact abs_coeff. Qed.
+Print Assumptions C20_abs_exact.
+
+Theorem C20_numer_denom : forall x, wfc x ->
+  exists n d, numer (Some (NC x)) = Val (Some n) /\ denom (Some (NC x)) = Val (Some d) /\
+              0 < d /\ Z.gcd n d = 1 /\ cq x == inject_Z n / inject_Z d.
+Proof. exact numer_denom_coeff. Qed.
+Print Assumptions C20_numer_denom.
+
+(* ---- order *)
+Theorem C20_compare_is_Qcompare : forall x y, wfc x -> wfc y ->
+  compare (Some (NC x)) (Some (NC y)) = Val (Some (zcmp (cq x ?= cq y)%Q)).
+Proof. exact compare_coeff. Qed.
+Print Assumptions C20_compare_is_Qcompare.
+
+Theorem C20_sign_exact : forall x, wfc x -> sign (Some (NC x)) = Val (Some (zcmp (cq x ?= 0)%Q)).
+Proof. exact sign_coeff. Qed.
+Print Assumptions C20_sign_exact.
+
+Theorem C20_predicates_exact : forall x y, wfc x -> wfc y ->
+  let X := Some (NC x) in let Y := Some (NC y) in
+  (exists b, eqp X Y = Val b /\ (b = true <-> cq x == cq y)) /\
+  (exists b, ltp X Y = Val b /\ (b = true <-> (cq x < cq y)%Q)) /\
+  (exists b, lep X Y = Val b /\ (b = true <-> (cq x <= cq y)%Q)) /\
+  (exists b, gtp X Y = Val b /\ (b = true <-> (cq y < cq x)%Q)) /\
+  (exists b, gep X Y = Val b /\ (b = true <-> (cq y <= cq x)%Q)).
+Proof. exact preds_coeff. Qed.
+Print Assumptions C20_predicates_exact.
+
+Theorem C20_order_total_antisymmetric : forall x y, wfc x -> wfc y ->
+  exists c, (c = -1 \/ c = 0 \/ c = 1) /\
+            compare (Some (NC x)) (Some (NC y)) = Val (Some c) /\
+            compare (Some (NC y)) (Some (NC x)) = Val (Some (- c)) /\
+            (c = 0 <-> cq x == cq y) /\ (c = -1 <-> (cq x < cq y)%Q) /\ (c = 1 <-> (cq y < cq x)%Q).
+Proof. exact compare_total_antisym_coeff. Qed.
+Print Assumptions C20_order_total_antisymmetric.
+
+Theorem C20_order_transitive : forall x y z, wfc x -> wfc y -> wfc z ->
+  lep (Some (NC x)) (Some (NC y)) = Val true -> lep (Some (NC y)) (Some (NC z)) = Val true ->
+  lep (Some (NC x)) (Some (NC z)) = Val true.
+Proof. exact le_trans_coeff. Qed.
+Print Assumptions C20_order_transitive.
+
+Theorem C20_min : forall x y, wfc x -> wfc y ->
+  exists r, min (Some (NC x)) (Some (NC y)) = Val (Some (NC r)) /\ (r = x \/ r = y) /\
+            (cq r <= cq x)%Q /\ (cq r <= cq y)%Q.
+Proof. exact min_coeff. Qed.
+Print Assumptions C20_min.
+
+Theorem C20_max : forall x y, wfc x -> wfc y ->
+  exists r, max (Some (NC x)) (Some (NC y)) = Val (Some (NC r)) /\ (r = x \/ r = y) /\
+            (cq x <= cq r)%Q /\ (cq y <= cq r)%Q.
+Proof. exact max_coeff. Qed.
+Print Assumptions C20_max.
+
+Theorem C20_clamp : forall x lo hi, wfc x -> wfc lo -> wfc hi -> (cq lo <= cq hi)%Q ->
+  exists r, clamp (Some (NC x)) (Some (NC lo)) (Some (NC hi)) = Val (Some (NC r)) /\
+            (r = x \/ r = lo \/ r = hi) /\ (cq lo <= cq r)%Q /\ (cq r <= cq hi)%Q /\
+            ((cq lo <= cq x)%Q -> (cq x <= cq hi)%Q -> r = x).
+Proof. exact clamp_coeff. Qed.
+Print Assumptions C20_clamp.
+
+(* ---- rounding of m/d (canonical): truncation, floor, ceiling, nearest with ties away from zero *)
+Theorem C20_to_int : forall x m d, wfc x -> to_rational x = Rat m d ->
+  to_int (Some (NC x)) = Val (Some (Z.quot m d)).
+Proof. exact to_int_coeff. Qed.
+Print Assumptions C20_to_int.
+
+Theorem C20_floor : forall x m d, wfc x -> to_rational x = Rat m d ->
+  floor (Some (NC x)) = Val (Some (m / d)).
+Proof. exact floor_coeff. Qed.
+Print Assumptions C20_floor.
+
+Theorem C20_ceil : forall x m d, wfc x -> to_rational x = Rat m d ->
+  ceil (Some (NC x)) = Val (Some (- ((- m) / d))).
+Proof. exact ceil_coeff. Qed.
+Print Assumptions C20_ceil.
+
+Theorem C20_floor_ceil_bracket : forall m d, 0 < d ->
+  (m / d) * d <= m < (m / d + 1) * d /\ (- ((- m) / d) - 1) * d < m <= - ((- m) / d) * d.
+Proof. exact floor_ceil_bounds. Qed.
+Print Assumptions C20_floor_ceil_bracket.
+
+Theorem C20_round : forall x m d, wfc x -> to_rational x = Rat m d ->
+  exists r, round (Some (NC x)) = Val (Some r) /\
+            2 * Z.abs (m - r * d) <= d /\ (2 * Z.abs (m - r * d) = d -> Z.abs m < Z.abs (r * d)).
+Proof. exact round_coeff. Qed.
+Print Assumptions C20_round.
+
+(* ---- field laws, through the value map and uniqueness of canonical forms *)
+Theorem C20_add_commutative : forall x y, wfc x -> wfc y ->
+  add (Some (NC x)) (Some (NC y)) = add (Some (NC y)) (Some (NC x)).
+Proof. exact add_comm_coeff. Qed.
+Print Assumptions C20_add_commutative.
+
+Theorem C20_mul_commutative : forall x y, wfc x -> wfc y ->
+  mul (Some (NC x)) (Some (NC y)) = mul (Some (NC y)) (Some (NC x)).
+Proof. exact mul_comm_coeff. Qed.
+Print Assumptions C20_mul_commutative.
+
+Theorem C20_add_associative : forall x y z, wfc x -> wfc y -> wfc z ->
+  andthen (add (Some (NC x)) (Some (NC y))) (fun xy => add xy (Some (NC z))) =
+  andthen (add (Some (NC y)) (Some (NC z))) (fun yz => add (Some (NC x)) yz).
+Proof. exact add_assoc_coeff. Qed.
+Print Assumptions C20_add_associative.
+
+Theorem C20_mul_associative : forall x y z, wfc x -> wfc y -> wfc z ->
+  andthen (mul (Some (NC x)) (Some (NC y))) (fun xy => mul xy (Some (NC z))) =
+  andthen (mul (Some (NC y)) (Some (NC z))) (fun yz => mul (Some (NC x)) yz).
+Proof. exact mul_assoc_coeff. Qed.
+Print Assumptions C20_mul_associative.
+
+Theorem C20_distributive : forall x y z, wfc x -> wfc y -> wfc z ->
+  andthen (add (Some (NC y)) (Some (NC z))) (fun s => mul (Some (NC x)) s) =
+  andthen (mul (Some (NC x)) (Some (NC y))) (fun p => andthen (mul (Some (NC x)) (Some (NC z))) (fun q => add p q)).
+Proof. exact distrib_coeff. Qed.
+Print Assumptions C20_distributive.
+
+Theorem C20_div_self_is_one : forall x, wfc x -> ~ cq x == 0 ->
+  div (Some (NC x)) (Some (NC x)) = Val (Some (NRat 1 1)).
+Proof. exact div_self_coeff. Qed.
+Print Assumptions C20_div_self_is_one.
+
+Theorem C20_sub_add_inverse : forall x y, wfc x -> wfc y ->
+  exists d r, sub (Some (NC x)) (Some (NC y)) = Val (Some (NC d)) /\
+              add (Some (NC d)) (Some (NC y)) = Val (Some (NC r)) /\ cq r == cq x.
+Proof. exact sub_add_inverse_coeff. Qed.
+Print Assumptions C20_sub_add_inverse.
+
+Theorem C20_div_mul_inverse : forall x y, wfc x -> wfc y -> ~ cq y == 0 ->
+  exists q r, div (Some (NC x)) (Some (NC y)) = Val (Some (NC q)) /\
+              mul (Some (NC q)) (Some (NC y)) = Val (Some (NC r)) /\ cq r == cq x.
+Proof. exact div_mul_inverse_coeff. Qed.
+Print Assumptions C20_div_mul_inverse.
+
+(* ---- absence propagates; never a runtime error *)
 Theorem C20_nil_propagates_unary :
   neg None = Val None /\ abs None = Val None /\ sign None = Val None /\ sqrt None = Val None /\
   numer None = Val None /\ denom None = Val None /\ to_int None = Val None /\ floor None = Val None /\
   ceil None = Val None /\ round None = Val None.
 Proof. exact nil_propagates_unary. Qed.
 Print Assumptions C20_nil_propagates_unary.
+
+Theorem C20_nil_propagates_left :
+  forall y z, add None y = Val None /\ sub None y = Val None /\ mul None y = Val None /\ div None y = Val None /\
+    min None y = Val None /\ max None y = Val None /\ clamp None y z = Val None /\
+    eqp None y = Val false /\ ltp None y = Val false /\ lep None y = Val false /\
+    gtp None y = Val false /\ gep None y = Val false.
+Proof. exact nil_propagates_left. Qed.
+Print Assumptions C20_nil_propagates_left.
+
+Theorem C20_nil_propagates_right :
+  forall x z, add x None = Val None /\ sub x None = Val None /\ mul x None = Val None /\ div x None = Val None /\
+    min x None = Val None /\ max x None = Val None /\ clamp x None z = Val None /\ clamp x z None = Val None /\
+    eqp x None = Val false /\ ltp x None = Val false /\ lep x None = Val false /\
+    gtp x None = Val false /\ gep x None = Val false.
+Proof. exact nil_propagates_right. Qed.
+Print Assumptions C20_nil_propagates_right.
+
+(* every exported operation (run_op covers the whole record, plus the *_fixed variants), on nil or
+   well-formed integer / rational / surd operands, returns a value: no integer_divide/modulo by zero,
+   no integer_sqrt of a negative, no builtin applied to nil, no fuel exhaustion is reachable *)
+Theorem C20_never_errs : forall op x y z, wf_opt x -> wf_opt y -> wf_opt z ->
+  exists v, run_op op [x; y; z] = Val v.
+Proof. exact never_errs. Qed.
+Print Assumptions C20_never_errs.
+
+(* ---- square-free search and sqrt *)
+Theorem C20_sqfree_terminates_and_factors : forall N, 0 < N ->
+  exists k m, sqfree 1 N 2 = Val (k, m) /\ 0 < k /\ 0 < m /\ k * k * m = N /\
+              (forall e, 1 < e -> ~ (e * e | m)).
+Proof. exact sqfree_spec. Qed.
+Print Assumptions C20_sqfree_terminates_and_factors.
+
+Theorem C20_sqrt_exact : forall c p q, wfc c -> to_rational c = Rat p q ->
+  (p < 0 -> sqrt (Some (NC c)) = Val None) /\
+  (p = 0 -> sqrt (Some (NC c)) = Val (Some (NInt 0))) /\
+  (0 < p -> exists r, sqrt (Some (NC c)) = Val (Some r) /\ built r /\
+      ((exists c', r = NC c' /\ wfc c' /\ (0 < cq c')%Q /\ cq c' * cq c' == cq c) \/
+       (exists b m, r = NSurd (CInt 0) b m /\ wfc b /\ (0 < cq b)%Q /\ 1 < m /\ squarefree m /\
+                    cq b * cq b * inject_Z m == cq c))).
+Proof. exact sqrt_coeff. Qed.
+Print Assumptions C20_sqrt_exact.
+
+(* ---- surds: exact members of Q(sqrt n) *)
+Theorem C20_surd_arith_exact : forall x y n px py,
+  wf_num x -> wf_num y -> is_surd x \/ is_surd y -> 1 < n -> denotes x n px -> denotes y n py ->
+  (exists r, add (Some x) (Some y) = Val (Some r) /\ denotes r n (padd px py) /\ wf_num r /\ built r) /\
+  (exists r, sub (Some x) (Some y) = Val (Some r) /\ denotes r n (psub px py) /\ wf_num r /\ built r) /\
+  (exists r, mul (Some x) (Some y) = Val (Some r) /\ denotes r n (pmul n px py) /\ wf_num r /\ built r) /\
+  (~ pzero py -> exists r, div (Some x) (Some y) = Val (Some r) /\ denotes r n (pdiv n px py) /\ wf_num r /\ built r).
+Proof. exact surd_arith_exact. Qed.
+Print Assumptions C20_surd_arith_exact.
+
+Theorem C20_pdiv_is_ring_division : forall n p q, ~ pnorm n q == 0 -> peq (pmul n (pdiv n p q) q) p.
+Proof. exact pdiv_pmul. Qed.
+Print Assumptions C20_pdiv_is_ring_division.
+
+Theorem C20_norm_nonzero : forall n a b, nonsquare n -> canon a -> canon b ->
+  ~ (qval a == 0 /\ qval b == 0) -> ~ (qval a * qval a - qval b * qval b * inject_Z n == 0)%Q.
+Proof. exact norm_nonzero. Qed.
+Print Assumptions C20_norm_nonzero.
+
+Theorem C20_mixed_radicals_nil : forall a b n c d m,
+  let x := NSurd a b n in let y := NSurd c d m in
+  wf_num x -> wf_num y -> n <> m ->
+  add (Some x) (Some y) = Val None /\ sub (Some x) (Some y) = Val None /\
+  mul (Some x) (Some y) = Val None /\ div (Some x) (Some y) = Val None /\
+  compare (Some x) (Some y) = Val None /\
+  eqp (Some x) (Some y) = Val false /\ ltp (Some x) (Some y) = Val false /\ lep (Some x) (Some y) = Val false /\
+  gtp (Some x) (Some y) = Val false /\ gep (Some x) (Some y) = Val false /\
+  min_fixed (Some x) (Some y) = Val None /\ max_fixed (Some x) (Some y) = Val None /\
+  (forall z, clamp_fixed (Some x) (Some y) z = Val None \/ z = None).
+Proof. exact mixed_radicals_nil. Qed.
+Print Assumptions C20_mixed_radicals_nil.
+
+(* F14 (known finding): the property "mixing incompatible radicals yields nil" FAILS for min/max/clamp
+   as coded in std/num.qv:285-304; witness sqrt2, sqrt3, sqrt5.  The un-negated statement is the
+   min_fixed/max_fixed/clamp_fixed part of C20_mixed_radicals_nil. *)
+Theorem C20_minmax_mixed_radicals_refuted :
+  exists x y z, wf_num x /\ wf_num y /\ wf_num z /\
+    (exists a b n c d m, x = NSurd a b n /\ y = NSurd c d m /\ n <> m) /\
+    min (Some x) (Some y) = Val (Some x) /\ max (Some x) (Some y) = Val (Some x) /\
+    clamp (Some x) (Some y) (Some z) = Val (Some x).
+Proof. exact minmax_mixed_radicals_refuted. Qed.
+Print Assumptions C20_minmax_mixed_radicals_refuted.
+
+(* ---- sign and order of surds *)
+(* axiom-free: the kernel's sign is the squares-comparison function surd_sign of the values, and
+   compare on one field is surd_sign of the difference.  With Coq's classical Reals (standard-library
+   axioms, the only two theorems of this file that use any): surd_sign is the sign of a + b sqrt n
+   in R, so compare decides the real order of two members of one field.
+   (The Reals theorems are interleaved with axiom-free ones so that every `Print Assumptions` block
+   with axioms is followed by a "Closed under the global context" block.) *)
+Theorem C20_surd_sign_real : forall qa qb n, (0 < n)%Z ->
+  rsgn (Q2R qa + Q2R qb * R_sqrt.sqrt (IZR n)) (surd_sign qa qb n).
+Proof. exact surd_sign_real. Qed.
+Print Assumptions C20_surd_sign_real.
+
+Theorem C20_surd_sign_squares : forall a b n, canon a -> canon b ->
+  ssign a b n = Val (surd_sign (qval a) (qval b) n).
+Proof. exact ssign_spec. Qed.
+Print Assumptions C20_surd_sign_squares.
+
+Theorem C20_surd_order_real : forall x y, wf_num x -> wf_num y -> is_surd x \/ is_surd y ->
+  (exists a b n c d m, x = NSurd a b n /\ y = NSurd c d m /\ n <> m /\ compare (Some x) (Some y) = Val None) \/
+  (exists n px py s, (1 < n)%Z /\ denotes x n px /\ denotes y n py /\ compare (Some x) (Some y) = Val (Some s) /\
+     rsgn ((Q2R (fst px) + Q2R (snd px) * R_sqrt.sqrt (IZR n)) - (Q2R (fst py) + Q2R (snd py) * R_sqrt.sqrt (IZR n))) s).
+Proof. exact compare_surd_real. Qed.
+Print Assumptions C20_surd_order_real.
+
+Theorem C20_surd_compare : forall x y, wf_num x -> wf_num y -> is_surd x \/ is_surd y ->
+  (exists a b n c d m, x = NSurd a b n /\ y = NSurd c d m /\ n <> m /\ compare (Some x) (Some y) = Val None) \/
+  (exists n px py, 1 < n /\ nonsquare n /\ denotes x n px /\ denotes y n py /\
+     compare (Some x) (Some y) = Val (Some (surd_sign (fst (psub px py)) (snd (psub px py)) n))).
+Proof. exact compare_surd. Qed.
+Print Assumptions C20_surd_compare.
